@@ -199,7 +199,8 @@ pub fn valid_stream(rng: &mut Rng, cfg: &GenConfig, fixture_one_in: u64, contain
     // map codestream offsets into file offsets
     let fixed = 1 + spec.with_ftyp as usize + spec.level.is_some() as usize;
     let mut cs_pos = 0usize;
-    let mut last_cs_box = 0;
+    // the box in which the codestream's last byte arrives (read() stops reading there)
+    let mut last_cs_box = usize::MAX;
     for (i, b) in spec.boxes.iter().enumerate() {
         let (_, _, p, _) = bmap.boxes[fixed + i];
         match &b.kind {
@@ -207,7 +208,9 @@ pub fn valid_stream(rng: &mut Rng, cfg: &GenConfig, fixture_one_in: u64, contain
                 for &o in &cs_struct {
                     structural.push(p + o);
                 }
-                last_cs_box = i;
+                if last_cs_box == usize::MAX {
+                    last_cs_box = i;
+                }
             }
             BoxKind::Jxlp { .. } => {
                 let start = p + 4;
@@ -217,10 +220,15 @@ pub fn valid_stream(rng: &mut Rng, cfg: &GenConfig, fixture_one_in: u64, contain
                     }
                 }
                 cs_pos += b.payload.len();
-                last_cs_box = i;
+                if cs_pos >= cs.len() && last_cs_box == usize::MAX {
+                    last_cs_box = i;
+                }
             }
             _ => {}
         }
+    }
+    if last_cs_box == usize::MAX {
+        last_cs_box = spec.boxes.len();
     }
     structural.sort_unstable();
     structural.dedup();
